@@ -1,24 +1,25 @@
 /-
   C40 — bulk-ingestion paths are equivalent to plain puts.
 
-  Model: the shared Core model (`MvModel/Core.lean`) with the two bulk operations as
-  `/verif/fixes/C40.diff` repairs them (`MvModel/Bulk.lean`: `stepR`, `runR`).
+  Model: the shared Core model (`MvModel/Core.lean`: `step`, `run`), which since repair 7cd4b84
+  (`/verif/fixes/C40.diff`) mirrors the repaired `commit_skip_indexes` / `finalize_indexes`.  The proofs
+  work on the flat copies `stepR` / `runR` of `MvModel/Bulk.lean`; `runR_eq_run` shows they are `run`.
 
   Property theorems (for ANY starting handle `m0` satisfying `Start` — in particular a fresh file,
-  `start_create`, and again every handle a finished ingestion leaves — and for ARBITRARY trace inputs:
-  stored lengths / compression, automatic checkpoints, WAL sizes, footers may differ from path to path):
+  `start_create`, and again every handle a finished ingestion leaves, `done_start` — and for ARBITRARY
+  trace inputs: stored lengths / compression, automatic checkpoints, WAL sizes, footers may differ from
+  path to path):
 
     C40_batch        begin_batch; puts; end_batch; commit            ≡ puts; commit
     C40_skip         (puts; commit_skip_indexes)*; finalize_indexes  ≡ puts; commit
     C40_skip_batch   the skip-index program inside batch mode        ≡ puts; commit
-        each: the same `visible` (logical frame table, what a read of every frame returns, time index,
-        vector index, engine documents, sketch track), the same abstract state `abs`, and the same
-        `visible` after drop + open.
-    C40_plain_is_current / C40_batch_is_current   on these two programs the repaired model IS the
-        shared model (`runR = run`): the batch clause holds for the code as it is.
-    C40_counterexample   for the code as it is (shared model, `run`) the skip-index clause is FALSE:
-        one embedded document through commit_skip_indexes + finalize_indexes ends with an empty vector
-        index.
+        each about `run`: the same `visible` (logical frame table, what a read of every frame returns,
+        time index, vector index, engine documents, sketch track), the same abstract state `abs`, and
+        the same `visible` after drop + open.
+    C40_batch_pre_repair   on programs without the two bulk operations the pre-repair model `runOld`
+        equals `run`: the batch clause never depended on the repair.
+    C40_counterexample   for the code BEFORE the repair (`runOld`) the skip-index clause is FALSE: one
+        embedded document through commit_skip_indexes + finalize_indexes ends with an empty vector index.
 -/
 import MvProps.C40View
 namespace Mv.Core
@@ -129,6 +130,35 @@ theorem sameDocs_ne {ds ds' : List PutArgs} (h : SameDocs ds ds') (hne : ds ≠ 
   | nil => exact hne rfl
   | cons _ _ => simp at h
 
+/-! ## The flat copies are the shared model -/
+
+theorem commitSkipIndexesR_eq (m : Mem) : m.commitSkipIndexesR = m.commitSkipIndexes := rfl
+theorem finalizeIndexesR_eq (m : Mem) (ft : Nat) : m.finalizeIndexesR ft = m.finalizeIndexes ft := rfl
+
+theorem stepR_eq_step (m : Mem) (op : Op) : stepR m op = step m op := by
+  cases op <;> rfl
+
+theorem runR_eq_run (m : Mem) (ops : List Op) : runR m ops = run m ops := by
+  induction ops generalizing m with
+  | nil => rfl
+  | cons op ops ih => simp only [runR, run, stepR_eq_step]; exact ih _
+
+/-- the answers of a run of the shared model -/
+def outs (m : Mem) (ops : List Op) : List Out := (trace m ops).map (·.2)
+
+theorem outsR_eq_outs (m : Mem) (ops : List Op) : outsR m ops = outs m ops := by
+  induction ops generalizing m with
+  | nil => rfl
+  | cons op ops ih =>
+    simp only [outsR, outs, trace, List.map_cons, stepR_eq_step]
+    exact congrArg _ (ih _)
+
+/-- every call of the program is acknowledged (shared model) -/
+def Acked (m : Mem) (ops : List Op) : Prop := ∀ o ∈ outs m ops, o.isAck = true
+
+theorem Acked.allAcked {m : Mem} {ops : List Op} (h : Acked m ops) : AllAcked m ops := by
+  unfold AllAcked; rw [outsR_eq_outs]; exact h
+
 /-! ## The property -/
 
 /-- **C40, batch clause.**  Ingesting a document set through `begin_batch; puts; end_batch; commit`
@@ -137,39 +167,45 @@ theorem sameDocs_ne {ds ds' : List PutArgs} (h : SameDocs ds ds') (hne : ds ≠ 
 theorem C40_batch {m0 : Mem} (s : Start m0) (docs docsB : List DocCall) (ft ftB ws : Nat) (dis : Bool)
     (hne : docs ≠ []) (same : SameDocs (docs.map (·.1)) (docsB.map (·.1)))
     (ok : ∀ d ∈ docs, DocOk d.1) (okB : ∀ d ∈ docsB, DocOk d.1)
-    (acked : AllAcked m0 (plainOps docs ft)) (ackedB : AllAcked m0 (batchOps dis ws docsB ftB)) :
-    Equivalent (runR m0 (batchOps dis ws docsB ftB)) (runR m0 (plainOps docs ft)) := by
+    (acked : Acked m0 (plainOps docs ft)) (ackedB : Acked m0 (batchOps dis ws docsB ftB)) :
+    Equivalent (run m0 (batchOps dis ws docsB ftB)) (run m0 (plainOps docs ft)) := by
   have hneB : docsB ≠ [] := by
     have := sameDocs_ne same (by simpa using hne)
     simpa using this
   have same' : SameDocs (docsB.map (·.1)) (docs.map (·.1)) := by unfold SameDocs at *; exact same.symm
-  exact done_equivalent s (batch_done s dis ws docsB ftB hneB okB ackedB) (plain_done s docs ft hne ok acked) same'
+  rw [← runR_eq_run, ← runR_eq_run]
+  exact done_equivalent s (batch_done s dis ws docsB ftB hneB okB ackedB.allAcked)
+    (plain_done s docs ft hne ok acked.allAcked) same'
 
-/-- **C40, skip-index clause (repaired code).**  Ingesting a document set in groups, each followed by
+/-- **C40, skip-index clause.**  Ingesting a document set in groups, each followed by
     `commit_skip_indexes`, and one `finalize_indexes` at the end is equivalent to plain puts followed by
     `commit`. -/
 theorem C40_skip {m0 : Mem} (s : Start m0) (docs : List DocCall) (groups : List (List DocCall)) (ft ftS : Nat)
     (hne : docs ≠ []) (same : SameDocs (docs.map (·.1)) (groups.flatten.map (·.1)))
     (ok : ∀ d ∈ docs, DocOk d.1) (okS : GroupsOk groups)
-    (acked : AllAcked m0 (plainOps docs ft)) (ackedS : AllAcked m0 (skipOps groups ftS)) :
-    Equivalent (runR m0 (skipOps groups ftS)) (runR m0 (plainOps docs ft)) := by
+    (acked : Acked m0 (plainOps docs ft)) (ackedS : Acked m0 (skipOps groups ftS)) :
+    Equivalent (run m0 (skipOps groups ftS)) (run m0 (plainOps docs ft)) := by
   have hneS : groups ≠ [] := by
     intro h0; subst h0
     exact sameDocs_ne same (by simpa using hne) rfl
   have same' : SameDocs (groups.flatten.map (·.1)) (docs.map (·.1)) := by unfold SameDocs at *; exact same.symm
-  exact done_equivalent s (skip_done s groups ftS hneS okS ackedS) (plain_done s docs ft hne ok acked) same'
+  rw [← runR_eq_run, ← runR_eq_run]
+  exact done_equivalent s (skip_done s groups ftS hneS okS ackedS.allAcked)
+    (plain_done s docs ft hne ok acked.allAcked) same'
 
-/-- **C40, skip-index clause inside batch mode (repaired code).** -/
+/-- **C40, skip-index clause inside batch mode.** -/
 theorem C40_skip_batch {m0 : Mem} (s : Start m0) (docs : List DocCall) (groups : List (List DocCall)) (ft ftS ws : Nat)
     (dis : Bool) (hne : docs ≠ []) (same : SameDocs (docs.map (·.1)) (groups.flatten.map (·.1)))
     (ok : ∀ d ∈ docs, DocOk d.1) (okS : GroupsOk groups)
-    (acked : AllAcked m0 (plainOps docs ft)) (ackedS : AllAcked m0 (skipBatchOps dis ws groups ftS)) :
-    Equivalent (runR m0 (skipBatchOps dis ws groups ftS)) (runR m0 (plainOps docs ft)) := by
+    (acked : Acked m0 (plainOps docs ft)) (ackedS : Acked m0 (skipBatchOps dis ws groups ftS)) :
+    Equivalent (run m0 (skipBatchOps dis ws groups ftS)) (run m0 (plainOps docs ft)) := by
   have hneS : groups ≠ [] := by
     intro h0; subst h0
     exact sameDocs_ne same (by simpa using hne) rfl
   have same' : SameDocs (groups.flatten.map (·.1)) (docs.map (·.1)) := by unfold SameDocs at *; exact same.symm
-  exact done_equivalent s (skip_batch_done s dis ws groups ftS hneS okS ackedS) (plain_done s docs ft hne ok acked) same'
+  rw [← runR_eq_run, ← runR_eq_run]
+  exact done_equivalent s (skip_batch_done s dis ws groups ftS hneS okS ackedS.allAcked)
+    (plain_done s docs ft hne ok acked.allAcked) same'
 
 theorem lchunks_id_lt (a : PutArgs) (d n : Nat) (cs : List ChunkArg) (i k : Nat) :
     ∀ x ∈ lchunks a d n cs i k, x.v.id < k + cs.length := by
@@ -233,7 +269,7 @@ theorem done_start {m0 m : Mem} {docs} (s : Start m0) (h : Done m0 docs m) : Sta
       omega
   · intro h0; rw [h.settled.pSketch]; exact h0
 
-/-! ## A fresh file is a starting point; the repaired model on programs without bulk operations -/
+/-! ## A fresh file is a starting point; the pre-repair model on programs without bulk operations -/
 
 theorem start_create : Start Mem.create := by
   refine ⟨?_, rfl, rfl, rfl, ?_, ?_, ?_, ?_, rfl, ?_, ?_⟩
@@ -254,15 +290,15 @@ def isBulk : Op → Bool
 /-- the program contains neither `commit_skip_indexes` nor `finalize_indexes` -/
 def NoBulkOp (ops : List Op) : Prop := ∀ op ∈ ops, isBulk op = false
 
-theorem stepR_eq_step (m : Mem) (op : Op) (h : isBulk op = false) : stepR m op = step m op := by
+theorem stepOld_eq_step (m : Mem) (op : Op) (h : isBulk op = false) : stepOld m op = step m op := by
   cases op <;> try rfl
   all_goals (simp [isBulk] at h)
 
-theorem runR_eq_run (ops : List Op) (h : NoBulkOp ops) (m : Mem) : runR m ops = run m ops := by
+theorem runOld_eq_run (ops : List Op) (h : NoBulkOp ops) (m : Mem) : runOld m ops = run m ops := by
   induction ops generalizing m with
   | nil => rfl
   | cons op ops ih =>
-    simp only [runR, run, stepR_eq_step m op (h op (by simp))]
+    simp only [runOld, run, stepOld_eq_step m op (h op (by simp))]
     exact ih (fun x hx => h x (by simp [hx])) _
 
 theorem noBulk_puts (docs : List DocCall) (rest : List Op) (h : NoBulkOp rest) : NoBulkOp (putOps docs ++ rest) := by
@@ -273,44 +309,39 @@ theorem noBulk_puts (docs : List DocCall) (rest : List Op) (h : NoBulkOp rest) :
     rfl
   · exact h op h1
 
-/-- on the plain program the repaired model is the shared model -/
-theorem C40_plain_is_current (m : Mem) (docs : List DocCall) (ft : Nat) :
-    runR m (plainOps docs ft) = run m (plainOps docs ft) := by
-  apply runR_eq_run
-  apply noBulk_puts
-  intro op hop
-  simp only [List.mem_singleton] at hop
-  subst hop; rfl
+/-- on the plain and the batch program the model of the code before the repair is the shared model:
+    `C40_batch` never depended on repair 7cd4b84 -/
+theorem C40_batch_pre_repair (m : Mem) (dis : Bool) (ws : Nat) (docs : List DocCall) (ft : Nat) :
+    runOld m (plainOps docs ft) = run m (plainOps docs ft) ∧
+    runOld m (batchOps dis ws docs ft) = run m (batchOps dis ws docs ft) := by
+  constructor
+  · apply runOld_eq_run
+    apply noBulk_puts
+    intro op hop
+    simp only [List.mem_singleton] at hop
+    subst hop; rfl
+  · apply runOld_eq_run
+    intro op hop
+    unfold batchOps at hop
+    rcases List.mem_cons.mp hop with h1 | h1
+    · subst h1; rfl
+    · refine noBulk_puts docs [Op.endBatch, Op.commit ft] ?_ op h1
+      intro op' hop'
+      simp only [List.mem_cons, List.not_mem_nil, or_false] at hop'
+      rcases hop' with rfl | rfl <;> rfl
 
-/-- on the batch program the repaired model is the shared model: `C40_batch` is a statement about the
-    code as it is -/
-theorem C40_batch_is_current (m : Mem) (dis : Bool) (ws : Nat) (docs : List DocCall) (ft : Nat) :
-    runR m (batchOps dis ws docs ft) = run m (batchOps dis ws docs ft) := by
-  apply runR_eq_run
-  intro op hop
-  unfold batchOps at hop
-  rcases List.mem_cons.mp hop with h1 | h1
-  · subst h1; rfl
-  · refine noBulk_puts docs [Op.endBatch, Op.commit ft] ?_ op h1
-    intro op' hop'
-    simp only [List.mem_cons, List.not_mem_nil, or_false] at hop'
-    rcases hop' with rfl | rfl <;> rfl
+/-! ## The code before repair 7cd4b84: the skip-index clause was false -/
 
-/-! ## The code as it is: the skip-index clause is false -/
-
-/-- the answers of a run of the shared (unrepaired) model -/
-def outs (m : Mem) (ops : List Op) : List Out := (trace m ops).map (·.2)
-
-/-- the skip-index clause for the shared model `run` (the code as it is), already on a fresh file -/
+/-- the skip-index clause for the pre-repair model `runOld`, already on a fresh file -/
 def C40_full : Prop :=
   ∀ (docs : List DocCall) (groups : List (List DocCall)) (ft ftS : Nat),
     docs ≠ [] → SameDocs (docs.map (·.1)) (groups.flatten.map (·.1)) →
     (∀ d ∈ docs, DocOk d.1) → GroupsOk groups →
-    (∀ o ∈ outs Mem.create (plainOps docs ft), o.isAck = true) →
-    (∀ o ∈ outs Mem.create (skipOps groups ftS), o.isAck = true) →
-    visible (run Mem.create (skipOps groups ftS)) = visible (run Mem.create (plainOps docs ft))
+    (∀ o ∈ outsOld Mem.create (plainOps docs ft), o.isAck = true) →
+    (∀ o ∈ outsOld Mem.create (skipOps groups ftS), o.isAck = true) →
+    visible (runOld Mem.create (skipOps groups ftS)) = visible (runOld Mem.create (plainOps docs ft))
 
-/-- the witness: one 60-byte document with a 4-dimensional embedding -/
+/-- the witness: one 80-byte document with a 4-dimensional embedding -/
 def witnessDoc : DocCall :=
   ({ ts := 100, content := "c0ffee", len := 69, plen := 69, emb := some (4, "e4"), zstd := true }, { ft := 69 })
 
@@ -320,8 +351,9 @@ theorem witness_docOk : DocOk witnessDoc.1 := by
   · intro c hc; cases hc
   · intro _; decide
 
-/-- **C40 is false for the code as it is**: through `commit_skip_indexes` + `finalize_indexes` the
-    embedding of the witness document is not in the vector index (`some []`), through `commit` it is. -/
+/-- **C40 was false for the code before the repair**: through `commit_skip_indexes` +
+    `finalize_indexes` the embedding of the witness document is not in the vector index (`some []`),
+    through `commit` it is. -/
 theorem C40_counterexample : ¬ C40_full := by
   intro h
   have hv := h [witnessDoc] [[witnessDoc]] 6958 6958 (by simp) rfl
@@ -338,9 +370,9 @@ theorem C40_counterexample : ¬ C40_full := by
   revert hvec
   decide
 
-/-- the same witness on the repaired model: both paths hold the embedding -/
-example : (visible (runR Mem.create (skipOps [[witnessDoc]] 6958))).vec = some [{ id := 0, dim := 4, tok := "e4" }] ∧
-    (visible (runR Mem.create (plainOps [witnessDoc] 6958))).vec = some [{ id := 0, dim := 4, tok := "e4" }] := by
+/-- the same witness on the shared (repaired) model: both paths hold the embedding -/
+example : (visible (run Mem.create (skipOps [[witnessDoc]] 6958))).vec = some [{ id := 0, dim := 4, tok := "e4" }] ∧
+    (visible (run Mem.create (plainOps [witnessDoc] 6958))).vec = some [{ id := 0, dim := 4, tok := "e4" }] := by
   decide
 
 /-! ## Non-vacuity: concrete instances satisfy the hypotheses of the theorems -/
@@ -374,10 +406,10 @@ theorem exDocB_ok (l : Nat) (z : Bool) (h : l ≠ 0) : DocOk (exDocB l z).1 := b
 /-- `C40_skip` and `C40_batch` apply to a fresh file and a two-document set (one chunked, with a chunk
     embedding; different stored lengths / compression on the bulk paths; two skip-index commits) -/
 example :
-    Equivalent (runR Mem.create (skipOps [[exDocB 30 false], [exDocA 9 8]] 900))
-               (runR Mem.create (plainOps [exDocB 20 true, exDocA 40 41] 700)) ∧
-    Equivalent (runR Mem.create (batchOps true 262144 [exDocB 30 false, exDocA 9 8] 800))
-               (runR Mem.create (plainOps [exDocB 20 true, exDocA 40 41] 700)) := by
+    Equivalent (run Mem.create (skipOps [[exDocB 30 false], [exDocA 9 8]] 900))
+               (run Mem.create (plainOps [exDocB 20 true, exDocA 40 41] 700)) ∧
+    Equivalent (run Mem.create (batchOps true 262144 [exDocB 30 false, exDocA 9 8] 800))
+               (run Mem.create (plainOps [exDocB 20 true, exDocA 40 41] 700)) := by
   have okP : ∀ d ∈ [exDocB 20 true, exDocA 40 41], DocOk d.1 := by
     intro d hd
     simp only [List.mem_cons, List.not_mem_nil, or_false] at hd
@@ -405,9 +437,9 @@ example :
       rcases hg with rfl | rfl
       · simp only [List.mem_singleton] at hd; subst hd; rfl
       · simp only [List.mem_singleton] at hd; subst hd; rfl
-  have ackP : AllAcked Mem.create (plainOps [exDocB 20 true, exDocA 40 41] 700) := by
-    unfold AllAcked; decide
-  exact ⟨C40_skip start_create _ _ 700 900 (by simp) rfl okP okS ackP (by unfold AllAcked; decide),
-         C40_batch start_create _ _ 700 800 262144 true (by simp) rfl okP okB ackP (by unfold AllAcked; decide)⟩
+  have ackP : Acked Mem.create (plainOps [exDocB 20 true, exDocA 40 41] 700) := by
+    unfold Acked; decide
+  exact ⟨C40_skip start_create _ _ 700 900 (by simp) rfl okP okS ackP (by unfold Acked; decide),
+         C40_batch start_create _ _ 700 800 262144 true (by simp) rfl okP okB ackP (by unfold Acked; decide)⟩
 
 end Mv.Core
